@@ -58,6 +58,8 @@ def run(ctx):
     # a Variable is also a serde data *source* (results handed to serde_json / to T::deserialize): its Serialize table (shared with C08)
     from . import c08
     ctx.attempt("check_serialize", c08.check_serialize, ctx, lib)
+    # Deserialize for Variable (the other half of the bridge: what a decoded-from-text value is)
+    ctx.attempt("check_visitor", c08.check_visitor, ctx, lib)
 
 
 # =============================================================================================
@@ -118,6 +120,9 @@ def check_serializer(ctx, lib):
     b, o, okt, tails = R("serialize_f64")
     ok = bool(b) and len(okt) >= 1 and not tails and f64_mapping_ok(set().union(*okt), P2)
     row("serialize_f64", ok and not casts_in(b), "Number(from_f64(value)) when finite, Null otherwise")
+    if b is not None:
+        from ..serde_tables import f64_decided_by_from_f64
+        row("serialize_f64:decided-by-from_f64", f64_decided_by_from_f64(b, o, P2), "every result lies after Number::from_f64(value); only a finiteness test of the value may come first")
     b, o, okt, tails = R("serialize_str")
     row("serialize_str", bool(b) and len(okt) == 1 and not tails and ms(okt[0], Agg(VAR + "::String", Each(P2))), "String(exactly the argument)")
     b, o, okt, tails = R("serialize_char")
